@@ -46,6 +46,31 @@ var numShapes = map[string]*numShape{
 	"semver": {Arities: []int{3}, Pre: []string{"-alpha", "-alpha.%k", "-rc.%k", "-rc%k", "-0"}},
 }
 
+// sweepSet: 2^k-1, 2^k, 2^k+1 for k = 1..30 and 10^k-1, 10^k, 10^k+1 for k = 1..9, below 2^31
+var sweepSet = func() []int64 {
+	seen := map[int64]bool{}
+	var out []int64
+	add := func(x int64) {
+		if x >= 0 && x < 1<<31 && !seen[x] {
+			seen[x] = true
+			out = append(out, x)
+		}
+	}
+	for k := uint(1); k <= 31; k++ {
+		for d := int64(-1); d <= 1; d++ {
+			add(int64(1)<<k + d)
+		}
+	}
+	p := int64(1)
+	for k := 1; k <= 9; k++ {
+		p *= 10
+		for d := int64(-1); d <= 1; d++ {
+			add(p + d)
+		}
+	}
+	return out
+}()
+
 func tupleCmp(a, b []string) int {
 	for i := range a {
 		if c := natCmp(a[i], b[i]); c != 0 {
@@ -68,7 +93,7 @@ func natCmp(a, b string) int {
 
 func checkC03(ctx *Ctx) {
 	res := ctx.Res
-	res.Rule = "per ecosystem and per component count it accepts: tuples over the boundary set {0,1,2,9,10,11,99,100,999,1000,65535,2^31-1} plus random values below 2^31 (no leading zeros; github first component kept below 1000 so that the text is not date-shaped): both texts must be accepted and Compare must equal the lexicographic comparison of the integer tuples; every pre-release spelling template of the ecosystem appended to a tuple text must compare < the bare text, every post-release/revision template >. non-trivial = distinct pairs of different tuples, plus distinct (tuple, marker) cases"
+	res.Rule = "per ecosystem and per component count it accepts: tuples over the boundary set {0,1,2,9,10,11,99,100,999,1000,65535,2^31-1} plus random values below 2^31, plus a deterministic sweep of every 2^k-1, 2^k, 2^k+1 (k<=30) and 10^k-1, 10^k, 10^k+1 (k<=9) at every position against its neighbours, 0 and the carry tuple (no leading zeros; github first component kept below 1000 so that the text is not date-shaped): both texts must be accepted and Compare must equal the lexicographic comparison of the integer tuples; every pre-release spelling template of the ecosystem appended to a tuple text must compare < the bare text, every post-release/revision template >. non-trivial = distinct pairs of different tuples, plus distinct (tuple, marker) cases"
 	nPairs, nMark := 1500, 40
 	if !ctx.Quick {
 		nPairs, nMark = 40000, 600
@@ -102,7 +127,7 @@ func checkC03(ctx *Ctx) {
 			return t
 		}
 		text := func(t []string) string { return sh.Prefix + strings.Join(t, ".") }
-		nT, nM := 0, 0
+		nT, nM, nSweep := 0, 0, 0
 		for _, n := range sh.Arities {
 			for it := 0; it < nPairs/len(sh.Arities); it++ {
 				t1 := mk(n)
@@ -137,6 +162,64 @@ func checkC03(ctx *Ctx) {
 				}
 				if nT == 1 {
 					res.sample(map[string]any{"eco": e.Name, "a": s1, "b": s2, "expected": want, "impl": got})
+				}
+			}
+			// deterministic sweep of word boundaries: every 2^k-1, 2^k, 2^k+1 (k = 1..30) and
+			// 10^k-1, 10^k, 10^k+1 (k = 1..9) below 2^31 at every position, against its
+			// neighbours, 0, and the "carry" tuple (previous component + 1, this one 0)
+			for pos := 0; pos < n; pos++ {
+				for _, B := range sweepSet {
+					if e.Name == "github" && pos == 0 && B >= 1000 {
+						continue
+					}
+					t1 := make([]string, n)
+					for i := range t1 {
+						t1[i] = []string{"0", "1", "2", "9"}[(i+int(B))%4]
+					}
+					t1[0] = []string{"1", "2", "9"}[int(B)%3]
+					t1[pos] = fmt.Sprint(B)
+					var partners [][]string
+					for _, d := range []int64{-1, 1} {
+						if x := B + d; x >= 0 && x < 1<<31 && !(e.Name == "github" && pos == 0 && x >= 1000) {
+							t2 := append([]string{}, t1...)
+							t2[pos] = fmt.Sprint(x)
+							partners = append(partners, t2)
+						}
+					}
+					t0 := append([]string{}, t1...)
+					t0[pos] = "0"
+					partners = append(partners, t0)
+					if pos > 0 {
+						tc := append([]string{}, t1...)
+						var prev int64
+						fmt.Sscan(t1[pos-1], &prev)
+						tc[pos-1] = fmt.Sprint(prev + 1)
+						tc[pos] = "0"
+						partners = append(partners, tc)
+					}
+					s1 := text(t1)
+					p1 := e.Parse(s1)
+					if !p1.OK {
+						res.violate(Violation{Eco: e.Name, Kind: "numeric-rejected", Input: s1, Expected: fmt.Sprintf("accepted (%d components)", n), Actual: "error"})
+						continue
+					}
+					for _, t2 := range partners {
+						s2 := text(t2)
+						p2 := e.Parse(s2)
+						res.Evaluations++
+						if !p2.OK {
+							res.violate(Violation{Eco: e.Name, Kind: "numeric-rejected", Input: s2, Expected: fmt.Sprintf("accepted (%d components)", n), Actual: "error"})
+							continue
+						}
+						want := tupleCmp(t1, t2)
+						nSweep++
+						if got := cmpS(e, p1.Val, p2.Val); got != want {
+							res.violate(Violation{Eco: e.Name, Kind: "numeric-order", Input: []string{s1, s2}, Expected: fmt.Sprint(want), Actual: fmt.Sprint(got)})
+						}
+						if got := cmpS(e, p2.Val, p1.Val); got != -want {
+							res.violate(Violation{Eco: e.Name, Kind: "numeric-order", Input: []string{s2, s1}, Expected: fmt.Sprint(-want), Actual: fmt.Sprint(got)})
+						}
+					}
 				}
 			}
 			// markers
@@ -192,7 +275,7 @@ func checkC03(ctx *Ctx) {
 				}
 			}
 		}
-		dist[e.Name] = map[string]int{"tuple_pairs": nT, "marker_cases": nM}
+		dist[e.Name] = map[string]int{"tuple_pairs": nT, "marker_cases": nM, "boundary_sweep_pairs": nSweep}
 	}
 	res.DistinctNontrivial = len(distinct)
 	res.Distribution["per_ecosystem"] = dist
